@@ -105,7 +105,53 @@ def observe(container, ident, fuel):
     }
 
 
+def big_container(case):
+    """a container of `big` members (more than any small bound a walk might be capped at), built by
+    appends, prepends and insertions in the middle; observed ONCE at the end, against the list that
+    received the same operations (the history theorem covers every length; this ties the real
+    classes to it beyond the sizes the op-by-op comparison can afford)"""
+    ecls, ccls = classes()[case["family"]]
+    n = case["big"]
+    root = ecls(data=[0])
+    c, model = ccls(root), [root]
+    for i in range(1, n):
+        e = ecls(data=[i % 7])
+        r = i % 5
+        if r == 0:
+            c.preppend(e)
+            model.insert(0, e)
+        elif r == 1 and len(model) > 3:
+            c.add_after(model[len(model) // 2], e)
+            model.insert(len(model) // 2 + 1, e)
+        elif r == 2 and len(model) > 3:
+            c.add_before(model[len(model) // 3], e)
+            model.insert(len(model) // 3, e)
+        else:
+            c.append(e)
+            model.append(e)
+    import itertools
+
+    it = list(itertools.islice(iter(c), n + 5))
+    why = None
+    if len(it) != len(model) or any(a is not b for a, b in zip(it, model)):
+        why = f"iteration yields {len(it)} element(s), the list has {len(model)}"
+    elif len(c) != len(model):
+        why = f"len() is {len(c)}, the list has {len(model)}"
+    elif c.first is not model[0] or c.last is not model[-1]:
+        why = "first / last are not the ends of the list"
+    else:
+        back, cur = 0, c.last
+        while cur is not None and back <= n + 5:
+            back += 1
+            cur = cur.previous
+        if back != len(model):
+            why = f"the walk of previous links from last visits {back} element(s), the list has {len(model)}"
+    return {"obs": [], "exc": None, "big_why": why}
+
+
 def run_impl(case):
+    if case.get("big"):
+        return big_container(case)
     ecls, ccls = classes()[case["family"]]
     vals = case["vals"]
     elems, ident = {}, {}
@@ -151,6 +197,8 @@ def judge(case, obs, resp):
         return {"status": "error", "why": resp["error"]}
     if "harness_exc" in obs:
         return {"status": "error", "why": f"harness: {obs['harness_exc']} {obs.get('msg')}"}
+    if case.get("big"):
+        return {"status": "oracle", "why": f"container of {case['big']} members: {obs['big_why']}"} if obs.get("big_why") else {"status": "ok", "why": ""}
     if not resp["histok"]:
         return {"status": "skip", "why": "history not admissible"}
     f = resp["fail"]
@@ -167,7 +215,7 @@ def judge(case, obs, resp):
 
 
 def nontrivial(case):
-    return len(case["ops"]) > 0
+    return len(case["ops"]) > 0 or bool(case.get("big"))
 
 
 def features(case, obs):
@@ -342,6 +390,7 @@ def chunks(tier, seed):
         step, depth, nrand, rlen, parts = 6, 5, 120000, 60, 48
     else:  # search
         step, depth, nrand, rlen, parts = 5, 4, 6000, 40, 16
+    ch.append({"kind": "big"})
     for fam in FAMILIES:
         ch.append({"kind": "step", "family": fam, "maxsize": step})
     for i in range(parts):
@@ -359,6 +408,10 @@ def cases_of(chunk):
     k = chunk["kind"]
     if k == "corpus":
         yield from corpus_cases()
+    elif k == "big":
+        for fam in FAMILIES:
+            yield {"family": fam, "vals": [0], "ops": [], "big": 10007}
+            yield {"family": fam, "vals": [0], "ops": [], "big": 70001}
     elif k == "step":
         yield from inductive_step_cases(chunk["maxsize"], chunk["family"])
     elif k == "hist":
